@@ -12,6 +12,7 @@ also checks fail-closed that every other body still has the shape transcribed he
 import SophiaModel.Model.Store
 import SophiaModel.Model.StoreProto
 import SophiaModel.Gen.AdapterFlags
+import SophiaModel.Gen.ViewGlue
 
 namespace SophiaModel.Adapter
 open SophiaModel Term Store
@@ -89,6 +90,29 @@ only the FIRST matching element (`position` + `swap_remove`) and answers whether
 def vecFirstImpl (n : Nat) : Impl (List Quad) :=
   listImpl n (fun d q => (d ++ [q], true))
     (fun d q => if d.any (quadEq · q) then (d.eraseP (quadEq · q), true) else (d, false))
+
+/-! ### the glue the model treats as given, as obligations on generated tables (`Gen/ViewGlue.lean`) -/
+
+/-- `graph(g)`, `union_graph()`, … wrap a `&D`; `graph_mut(g)` a `&mut D`; `as_dataset_mut()` a `&mut G`: the model
+treats the forwarding impls of `Dataset` / `Graph` / `MutableDataset` / `MutableGraph` for `&T` and `&mut T` as
+the identity.  Justified when every method recorded from the source is `T::<same method>(*self, <its own
+parameters, in order>)` (a method that is not overridden falls back on the trait default over the forwarded
+primitives). -/
+def refForwardOK (t : List Gen.ViewGlue.Forward) : Bool :=
+  t.all (fun e => e.method == e.callee && e.sameArgs) &&
+  -- the primitives every view goes through are forwarded explicitly, for the four reference kinds
+  [("Dataset for &T", "quads"), ("Dataset for &T", "quads_matching"), ("Dataset for &mut T", "quads"),
+   ("Dataset for &mut T", "quads_matching"), ("Graph for &T", "triples"), ("Graph for &T", "triples_matching"),
+   ("Graph for &mut T", "triples"), ("Graph for &mut T", "triples_matching"),
+   ("MutableDataset for &mut T", "insert"), ("MutableDataset for &mut T", "remove"),
+   ("MutableGraph for &mut T", "insert"), ("MutableGraph for &mut T", "remove")].all
+    (fun (i, m) => t.any (fun e => e.impl == i && e.method == m))
+
+/-- `Adapter.Defaults` (below) transcribes the default bodies of `insert_all`, `remove_all`, `remove_matching`,
+`retain_matching` and of the element forms (`insert_triple`, …) of both `Mutable*` traits: all twelve recorded
+bodies are still the transcribed text -/
+def defaultBulkOK (t : List (String × String × Bool)) : Bool :=
+  t.all (fun e => e.2.2) && t.length == 12
 
 /-! ### shared vocabulary -/
 
